@@ -520,3 +520,7 @@ PROPS["C13"]["streams"] = PROPS["C13"]["streams"] + [dict(G_IDS, opts=dict(G_IDS
 G_MIXED = {"profile": "greedy", "opts": {"p_batch_loader": 0, "p_id_specific": 0.8, "p_mixed_request": 0.8,
                                          "max_nodes": 5, "graphs": 2}}
 PROPS["C08"]["streams"] = PROPS["C08"]["streams"] + [G_MIXED]
+
+# ------------------------------------------------------------------ C03: plans revised while a placement is being retried
+PROPS["C03"]["streams"] = PROPS["C03"]["streams"] + [CH_REPLAN, CH_REPLAN]
+PROPS["C03"]["runs"] = {"quick": 2000, "thorough": 60000}
